@@ -1,5 +1,6 @@
 """Fixture class hierarchy and callables for the value and type grammars (importable by name)."""
 import collections
+import collections.abc
 
 
 class A:
@@ -61,6 +62,33 @@ class X5(R1, R2):
 
 
 class X6(R2, R1):
+    pass
+
+
+# a family whose only common ancestor is an abstract base class that one member names explicitly and the others
+# satisfy structurally (C14: the ancestor found must not depend on which member comes first)
+class AH1(collections.abc.Hashable):
+    def __hash__(self):
+        return 1
+
+
+class AH2:
+    pass
+
+
+class AH3:
+    pass
+
+
+class AH4:
+    pass
+
+
+class AH5:
+    pass
+
+
+class AH6:
     pass
 
 
@@ -156,4 +184,4 @@ def make_gen():
     return genfunc()
 
 
-CLASSES = [SKey, Registry, TimeoutError, Warning, A, B, C, D, M, R1, R2, X1, X2, X3, X4, X5, X6, Outer, Outer.Inner, Outer.Inner.Deep, E1, E2, E3, E4, E5, E6]
+CLASSES = [AH1, AH2, AH3, AH4, AH5, AH6, SKey, Registry, TimeoutError, Warning, A, B, C, D, M, R1, R2, X1, X2, X3, X4, X5, X6, Outer, Outer.Inner, Outer.Inner.Deep, E1, E2, E3, E4, E5, E6]
